@@ -909,7 +909,21 @@ class Builder:
                 fn = pr.find_fn(segs) if segs else None
                 if fn is not None and fn.key not in seen:
                     seen.add(fn.key)
-                    lits(fn.body, seen)
+                    old_mod = pr.module
+                    pr.module = tuple(fn.module)
+                    try:
+                        lits(fn.body, seen)
+                    finally:
+                        pr.module = old_mod
+                elif n_["k"] == "path" and segs and segs[-1][:1].isupper():
+                    # a table kept in a constant
+                    try:
+                        ce = pr.const(segs[-1])
+                    except P.NoEval:
+                        ce = None
+                    if ce is not None and ("const", id(ce)) not in seen:
+                        seen.add(("const", id(ce)))
+                        lits(ce, seen)
 
         lits(f, set())
         fresh = [c_ for c_ in "qQ7 _~\t\u00e9\u20ac" if c_ not in mentioned]
